@@ -210,6 +210,21 @@ def run(tier, seed):
     chunks, n = merge_chunks(files, d)
     checked, classes = vlib.tlc_validate("Trace_Xdg", chunks, extra_env=dict(PENV=penv))
     out.absorb("Trace_Xdg", checked, classes, label="xdg")
+    # beyond the listed property: what getrids is FOR - the privilege machine of sys::user (sudo_down / sudo_up / drop_sudo /
+    # set*id / switchuser over the six process credentials, Creds.tla).  TLC explores it from root and from ordinary users for
+    # every SUDO pair (kernel no-escalation, drop_sudo final, sudo_down/sudo_up round trip; MC_Creds_doc MUST fail: negative
+    # control and the recorded observation that drop_sudo after sudo_down keeps the saved uid 0); the real functions run one
+    # program per forked child and TLC judges result + kernel-reported credentials after every call.
+    try:
+        out.add_mc("MC_Creds", vlib.tlc_mc("MC_Creds", "MC_Creds.cfg" if tier == "thorough" else "MC_Creds_Q.cfg", workers=8, coverage=False))
+        out.add_mc("MC_Creds_doc(negative control)", vlib.tlc_mc("MC_Creds", "MC_Creds_doc.cfg", workers=2, coverage=False, expect_violation=True))
+        vlib.build("creds")
+        dcr = sub("creds")
+        fs = vlib.run_workers("creds", ["--tier", tier, "--seed", str(seed)], 4, dcr, "cr", stall_s=60)
+        checked2, classes2 = vlib.tlc_validate("Trace_Creds", vlib.split_chunks(fs, dcr, "crc", 1500))
+        out.absorb("Trace_Creds", checked2, classes2, label="privilege programs")
+    except Stall as st:
+        vlib.stall_violation(out, st, "creds")
     for v in out.violations:          # make replay files self-contained: the environment travels with the record
         r = v.get("record")
         if isinstance(r, dict) and isinstance(r.get("e"), int) and r["e"] < len(envs):
@@ -233,6 +248,18 @@ def run(tier, seed):
 def replay(path):
     rp = json.load(open(path))
     rec = rp["record"]
+    if rp.get("validator") == "Trace_Creds":
+        d = sub("replay")
+        f = os.path.join(d, "replay.ndjson")
+        with open(f, "w") as fh:
+            fh.write(json.dumps(rec) + "\n")
+        checked, classes = vlib.tlc_validate("Trace_Creds", [f])
+        for c in classes:
+            print(c["c"], c["n"])
+        if any(c["c"][0] == "BAD" for c in classes):
+            print("VIOLATION property=%s replay=%s" % (rp["property"], path))
+            raise SystemExit(1)
+        raise SystemExit(0)
     env = rec.pop("penv", None)
     if env is None:
         print("replay file carries no environment")
